@@ -636,6 +636,12 @@ func c01(c *core.Ctx) {
 	// reused destination still holds (C18/R1)
 	c.Borrow("C18", map[string]string{"R1": "R10"}, c18)
 
+	// ---------------------------------------------------------------- R13 (shared)
+	// "intact": over HTTP a message travels through the codec the content type names, and that is grpc's registered
+	// proto codec (or the JSON codec) on both ends (C11/R3) — a codec of the package's own making need not keep what
+	// the registered one keeps (unknown fields)
+	c.Borrow("C11", map[string]string{"R3": "R13"}, c11)
+
 }
 
 // c01Sends: R2.
